@@ -14,7 +14,7 @@ from .common import class_hashes
 # classes whose four interface methods are within the verifier's reach today
 READY = ["Value", "Apply", "Bind", "Switch", "Overloaded", "CaseWhen", "Coalesce", "Iter", "EvaluatableArgs", "EvaluatableKwargs",
          "EvaluatableArguments", "FunctionApplication", "PartialApplication", "PipelineStep", "Pipeline", "Logged", "Computation",
-         "WithOptions", "Cached"]
+         "WithOptions", "Cached", "Option", "_AllOptions"]
 # private helper classes reached only by inlining from the class that builds them (their contract is their body)
 INLINED_ONLY = ["_DependsOn"]
 
@@ -95,7 +95,7 @@ def bundle(repo, tier, seed, laws, classes=None, extra_vcs=(), extra_sanity=(), 
         "trusted_base": ["interface laws assumed for children (A-ext); OptTheory clauses for confectioner (assumed, bounded-validated)",
                          "region complements of recorded findings: " + ("; ".join(regions) or "none")],
         "assumptions": ["classes under contract: " + ", ".join(classes or READY),
-                        "classes NOT yet under contract (out of the verifier's reach today, no claim): Option, Template, _AllOptions, Namespace, Dataset, Map, _DatasetClassMeta",
+                        "classes NOT yet under contract (out of the verifier's reach today, no claim): Template, Namespace, Dataset, Map, _DatasetClassMeta",
                         "private helper classes are verified by inlining only: " + ", ".join(INLINED_ONLY)] + [f"proved outside region: {x}" for x in regions],
         "explanation": explanation,
     }
